@@ -292,7 +292,12 @@ func init() {
 			lo, hi, lo, pf, pf, hi, na, old, pf, na, old, na))
 		v.writeCheck(st, ref, "sort.Slice sorts in place")
 		st.setHeap(name, sStore(h, ref, na))
-		v.c.trusted["sort.Slice permutes the slice in place (resulting order not modelled)"] = true
+		if fact := v.sortedFact(st, call, lo, hi); fact != "" {
+			st.axiom(fact)
+			v.c.trusted["sort.Slice permutes the slice in place; afterwards less(b, a) is false for positions a < b (less of the form `return E(i) < E(j)`, evaluated without running the closure)"] = true
+		} else {
+			v.c.trusted["sort.Slice permutes the slice in place (resulting order not modelled)"] = true
+		}
 		return nil
 	})
 	// math/rand: Intn/Int63n/Int31n panic ("invalid argument") unless n > 0
@@ -307,6 +312,34 @@ func init() {
 			return r
 		})
 	}
+	// string functions without heap effects whose result is left unconstrained
+	for _, n := range []string{"strings.ReplaceAll", "strings.Replace", "strings.ToLower", "strings.ToUpper", "strings.TrimSpace",
+		"strings.Trim", "strings.TrimLeft", "strings.TrimRight", "strings.TrimPrefix", "strings.TrimSuffix", "strings.Join", "strings.Fields", "strings.EqualFold"} {
+		name := n
+		if _, ok := stdModels[name]; ok {
+			continue
+		}
+		reg(name, true, func(v *FnV, st *State, call *ast.CallExpr, recv *Value, args []Value) []Value {
+			return v.havocResults(st, call, "str")
+		})
+	}
+	// strings.SplitN / strings.Split: only the length of the result is modelled (documented:
+	// n == 0 gives nil; otherwise at least one and, for n > 0, at most n substrings)
+	reg("strings.SplitN", true, func(v *FnV, st *State, call *ast.CallExpr, recv *Value, args []Value) []Value {
+		r := st.freshVal("splitn", v.resultTypes(call)[0])
+		n := args[2].S
+		l := sx("sllen", r.S)
+		st.assume(sImp(sEq(n, "0"), sEq(l, "0")))
+		// (an empty separator explodes s into its UTF-8 sequences: none for the empty string)
+		st.assume(sImp(sAnd(sNot(sEq(n, "0")), sOr(sGt(sx("slen", args[1].S), "0"), sGt(sx("slen", args[0].S), "0"))), sGe(l, "1")))
+		st.assume(sImp(sGt(n, "0"), sLe(l, n)))
+		return []Value{r}
+	})
+	reg("strings.Split", true, func(v *FnV, st *State, call *ast.CallExpr, recv *Value, args []Value) []Value {
+		r := st.freshVal("split", v.resultTypes(call)[0])
+		st.assume(sImp(sOr(sGt(sx("slen", args[1].S), "0"), sGt(sx("slen", args[0].S), "0")), sGe(sx("sllen", r.S), "1")))
+		return []Value{r}
+	})
 	reg("strings.LastIndex", true, func(v *FnV, st *State, call *ast.CallExpr, recv *Value, args []Value) []Value {
 		s, t := args[0].S, args[1].S
 		if lit, ok := v.litContent(t); ok && len(lit) == 1 {
@@ -559,4 +592,64 @@ func (c *Ctx) nlFns() {
 		"(assert (forall ((b (Array Int Int)) (a Int) (m Int) (c Int)) (! (=> (and (<= a m) (<= m c)) (= (nl b a c) (+ (nl b a m) (nl b m c)))) :pattern ((nl b a m) (nl b m c)) :pattern ((nl b a c) (nl b a m)) :pattern ((nl b a c) (nl b m c)))))",
 		"(assert (forall ((b (Array Int Int)) (a Int) (c Int) (k Int)) (! (=> (and (= (nl b a c) 0) (<= a k) (< k c)) (not (= (select b k) 10))) :pattern ((nl b a c) (select b k)))))")
 	c.trusted["NLAX: axioms of nl(b,a,c) = number of '\\n' bytes in b[a:c) (bounds, unit, additivity, zero-count)"] = true
+}
+
+// sortedFact: for sort.Slice(x, func(i, j int) bool { return A < B }) the order after the
+// call: for positions a < b of the slice, less(b, a) does not hold. The comparison is
+// evaluated symbolically in the state after the permutation, with i := b and j := a.
+func (v *FnV) sortedFact(st *State, call *ast.CallExpr, lo, hi string) string {
+	lit, ok := call.Args[1].(*ast.FuncLit)
+	if !ok || len(lit.Body.List) != 1 || lit.Type.Params == nil {
+		return ""
+	}
+	ret, ok := lit.Body.List[0].(*ast.ReturnStmt)
+	if !ok || len(ret.Results) != 1 {
+		return ""
+	}
+	var ps []types.Object
+	for _, f := range lit.Type.Params.List {
+		for _, id := range f.Names {
+			if o := v.info().Defs[id]; o != nil {
+				ps = append(ps, o)
+			}
+		}
+	}
+	if len(ps) != 2 {
+		return ""
+	}
+	pure := true
+	ast.Inspect(ret.Results[0], func(n ast.Node) bool {
+		if _, ok := n.(*ast.CallExpr); ok {
+			pure = false
+		}
+		return true
+	})
+	if !pure {
+		return ""
+	}
+	q := st.fork()
+	q.quiet = true
+	nq := len(q.items)
+	sloff := lo
+	// positions are absolute (array index); i and j are relative to the slice
+	q.env[ps[0].(*types.Var)] = Value{T: tInt, S: "(- k!sb " + sloff + ")"}
+	q.env[ps[1].(*types.Var)] = Value{T: tInt, S: "(- k!sa " + sloff + ")"}
+	var less Value
+	func() {
+		defer func() {
+			if r := recover(); r != nil {
+				less = Value{}
+			}
+		}()
+		less = v.expr(q, ret.Results[0])
+	}()
+	if less.S == "" || !isBoolType(less.T) {
+		return ""
+	}
+	for _, it := range q.items[nq:] {
+		if it.Decl != "" {
+			st.items = append(st.items, it)
+		}
+	}
+	return fmt.Sprintf("(forall ((k!sa Int) (k!sb Int)) (=> (and (<= %s k!sa) (< k!sa k!sb) (< k!sb %s)) (not %s)))", lo, hi, less.S)
 }
